@@ -10,11 +10,15 @@ def run(vc, tier):
     src = ['harness/c13_alloc.c', 'ref/edu_decoder.c']
     kw = dict(engine_srcs=['engine/vsched.c'])
     c.run_vx_unit('c13-single', src, 'sched-asan', ['--pairs', 0, '--D', 0], share=0.5 if tier != 'quick' else 0.9, **kw)
+    # the multithreaded scenarios again with the schedule explored: which worker reaches the refused allocation, and what the other
+    # jobs have done by then (serial turn taken or not), is part of "at whichever point"
+    pd = 1 if tier == 'quick' else 2
+    c.run_vx_unit('c13-mtsched', src, 'sched-asan', ['--pairs', 0, '--mtonly', 1, '--explore', 1, '--P', pd, '--D', pd, '--exec-timeout', 30000], share=0.5 if tier != 'quick' else 0.9, **kw)
     if tier != 'quick':
         c.run_vx_unit('c13-pairs', src, 'sched-asan', ['--pairs', 1, '--D', 0], share=0.9, **kw)
     c.extra['faults_injected'] = sum(r.stats.get('faults_injected', 0) for _, r, _ in c.units)
     c.extra['faults_reported_as_error'] = sum(r.stats.get('faults_reported_as_error', 0) for _, r, _ in c.units)
     c.extra['retries_succeeded'] = sum(r.stats.get('retries_succeeded', 0) for _, r, _ in c.units)
     c.assumptions = ['dictionary training (plain malloc, not ZSTD_customMem) is exercised by C18, not here',
-                     'MT scenarios: zero-deviation schedule of the deterministic scheduler']
+                     'MT scenarios: every allocation index on the zero-deviation schedule; every (schedule, index) inside the preemption / deviation bound in c13-mtsched']
     return c.finish()
